@@ -43,4 +43,10 @@ inductive Delivers (env : Env) : Bool → BExp → Val → Prop
   | allCons {e k x r} : pathLike k = false → Delivers env false e x → Delivers env true e r →
       Delivers env true e (.vcons k x r)
 
+/-- the file names the referenced outputs' recorded values contain: what any
+delivered value's names must be among (executable; the driver evaluates it
+against the `_args` of real jobs) -/
+def reach (env : Env) (e : BExp) : List String :=
+  e.valueRefs.flatMap fun r => (env r.1 r.2).flatMap Val.names
+
 end Martian.Vdr
